@@ -367,6 +367,77 @@ def fit_container_checks(ctx, g):
                 return
 
 
+
+def first_use_checks(ctx, g):
+    """(a) a NOT yet initialised offline readout handed a list batch in which ONE sequence (the first, a middle one or the
+    last; inputs or targets) has another feature count: rejected, and the node is left exactly as it was - not initialised,
+    no dimension, no buffer; (b) a node built with a declared input_dim, first used inside a Model whose upstream width
+    disagrees: rejected, the declared dimension stays, and so does the rejection when the attempt is repeated"""
+    import reservoirpy.nodes as N
+    ob = "first_use"
+    d, o, T = g.randint(1, 4), g.randint(1, 3), g.randint(3, 6)
+    k = g.randint(2, 4)
+
+    def arr(*shape):
+        return np.array([g.dy(a=2, k=8) for _ in range(int(np.prod(shape)))], dtype=float).reshape(shape)
+    for which in ("x", "y"):
+        for pos in sorted({0, k - 1, g.randint(0, k - 1)}):
+            for op in ("partial_fit", "fit"):
+                X = [arr(T, d) for _ in range(k)]
+                Y = [arr(T, o) for _ in range(k)]
+                if which == "x":
+                    X[pos] = arr(T, d + 1)
+                else:
+                    Y[pos] = arr(T, o + 1)
+                node = N.Ridge(ridge=0.5)
+                c = {"kind": "first_use", "what": "batch", "wrong": which, "pos": pos, "k": k, "op": op}
+                ctx.count(c, nontrivial=True, obligation=ob)
+                ctx.stat(f"first_use batch {which} pos={'last' if pos == k - 1 else 'first' if pos == 0 else 'middle'} {op}")
+                before = digest(node)
+                r = common.exc_class(lambda: getattr(node, op)(X, Y))
+                if r[0] == "ok":
+                    ctx.violation(f"Ridge.{op} on a fresh node accepted a batch of {k} sequences whose sequence {pos} has another "
+                                  f"{'input' if which == 'x' else 'target'} feature count", c, obligation=ob)
+                    return
+                if digest(node) != before or node.is_initialized:
+                    ctx.violation(f"Ridge.{op} on a fresh node rejected ({r[1]}) a batch whose sequence {pos} of {k} has another "
+                                  f"{'input' if which == 'x' else 'target'} feature count only after initialising the node or filling "
+                                  f"its buffers (initialised={node.is_initialized}, input_dim={node.input_dim}, output_dim={node.output_dim})",
+                                  c, obligation=ob)
+                    return
+    # (b) declared input dimension against the upstream width, inside a model
+    declared, actual = g.randint(1, 4), g.randint(5, 7)
+    for kind in ("reservoir", "nvar", "ridge_after_reservoir"):
+        if kind == "reservoir":
+            node = N.Reservoir(6, input_dim=declared, seed=1)
+            model = N.Input() >> node
+        elif kind == "nvar":
+            node = N.NVAR(delay=2, order=1, input_dim=declared)
+            model = N.Input() >> node
+        else:
+            node = N.Reservoir(5, input_dim=declared, seed=2)
+            model = N.Reservoir(actual, seed=3) >> node
+        c = {"kind": "first_use", "what": "declared_dim", "node": kind, "declared": declared, "actual": actual}
+        ctx.count(c, nontrivial=True, obligation=ob)
+        ctx.stat(f"first_use declared_dim {kind}")
+        data = arr(T, actual)
+        for attempt in (1, 2):
+            r = common.exc_class(lambda: model.run(data))
+            if r[0] == "ok":
+                ctx.violation(f"{kind} built with input_dim={declared}: attempt {attempt} to run it inside a model on upstream data "
+                              f"of width {actual} was accepted", c, obligation=ob)
+                return
+            if node.input_dim != declared or node.is_initialized:
+                ctx.violation(f"{kind} built with input_dim={declared}: after the rejected attempt {attempt} ({r[1]}) the node says "
+                              f"input_dim={node.input_dim}, initialised={node.is_initialized}", c, obligation=ob)
+                return
+        good = common.exc_class(lambda: node.run(arr(T, declared)))
+        if good[0] != "ok":
+            ctx.violation(f"{kind} built with input_dim={declared} rejects data of that width after two rejected attempts "
+                          f"with another width ({good[1]})", c, obligation=ob)
+            return
+
+
 def container_state_checks(ctx, g):
     """(a) partial_fit on an initialised readout and (b) run / fit of an initialised MODEL: wrong feature
     counts in every container (2-D array, list, 3-D array; wrong in the first or only in a later
@@ -618,7 +689,10 @@ def run(ctx):
     class_coverage(ctx)
     g = ctx.gen
     for c in common.load_corpus("C12"):
-        check_case(ctx, c)
+        if c.get("kind") == "first_use":
+            first_use_checks(ctx, common.Gen(38))      # (every call of the stream holds the declared-dimension cases)
+        else:
+            check_case(ctx, c)
     special_checks(ctx)
     for _ in range(ctx.n(40, 400)):
         link_dims_checks(ctx, g)
@@ -626,6 +700,8 @@ def run(ctx):
         fit_container_checks(ctx, g)
     for _ in range(ctx.n(6, 60)):
         container_state_checks(ctx, g)
+    for _ in range(ctx.n(6, 60)):
+        first_use_checks(ctx, g)
     for _ in range(ctx.n(4, 40)):
         teacher_node_checks(ctx, g)
     for _ in range(ctx.n(12, 100)):
@@ -648,6 +724,10 @@ def replay(ctx, data):
         common.quiet()
         for _ in range(4):
             teacher_node_checks(ctx, ctx.gen)
+    elif data["case"].get("kind") == "first_use":
+        common.quiet()
+        for _ in range(6):
+            first_use_checks(ctx, ctx.gen)
     elif data["case"].get("kind") == "containers":
         common.quiet()
         for _ in range(6):
